@@ -4,7 +4,7 @@
 import struct
 
 from .architecture import instruction_opcodes
-from .metacommand_impl import get_as_int
+from .metacommand_impl import get_as_int, describe_int
 from .containers import CaseInsensitiveDict
 from .deferred import Deferred, SizedDeferred, wait
 from .types import Symbol, ParenthesizedExpression, Number, InstructionPointer, Label, CodeBlock
@@ -266,7 +266,7 @@ class OffsetOperandStub:
                     reports.error(
                         "branch-out-of-bounds",
                         (insn.name.ctx_start, insn.name.ctx_end, f"Instruction '{insn.name.name}' can only jump backwards"),
-                        (operand.ctx_start, operand.ctx_end, f"...but the offset to the destination is positive (exactly {offset})")
+                        (operand.ctx_start, operand.ctx_end, f"...but the offset to the destination is positive (exactly {describe_int(offset)})")
                     )
                 error = True
             else:
@@ -277,14 +277,14 @@ class OffsetOperandStub:
                     reports.error(
                         "branch-out-of-bounds",
                         (insn.name.ctx_start, insn.name.ctx_end, f"Instruction '{insn.name.name}' can only jump from {min_offset} to {max_offset} (inclusively)"),
-                        (operand.ctx_start, operand.ctx_end, f"...but this offset is out of bounds ({offset})")
+                        (operand.ctx_start, operand.ctx_end, f"...but this offset is out of bounds ({describe_int(offset)})")
                     )
                     error = True
             if offset % 2 == 1:
                 reports.error(
                     "odd-branch",
                     (insn.name.ctx_start, insn.name.ctx_end, f"Instruction '{insn.name.name}' can only jump by an even offset"),
-                    (operand.ctx_start, operand.ctx_end, f"...but this offset is odd ({offset}, in particular)")
+                    (operand.ctx_start, operand.ctx_end, f"...but this offset is odd ({describe_int(offset)}, in particular)")
                 )
                 error = True
             if error:
@@ -321,7 +321,7 @@ class ImmediateOperandStub:
                 reports.error(
                     "value-out-of-bounds",
                     (insn.name.ctx_start, insn.name.ctx_end, f"Instruction '{insn.name.name}' takes a non-negative immediate operand"),
-                    (operand.ctx_start, operand.ctx_end, f"...but this value is negative (exactly {value})")
+                    (operand.ctx_start, operand.ctx_end, f"...but this value is negative (exactly {describe_int(value)})")
                 )
                 return 0
             else:
@@ -331,7 +331,7 @@ class ImmediateOperandStub:
                     reports.error(
                         "value-out-of-bounds",
                         (insn.name.ctx_start, insn.name.ctx_end, f"Instruction '{insn.name.name}' takes an immediate operand from {min_value} to {max_value} (inclusively)"),
-                        (operand.ctx_start, operand.ctx_end, f"...but this value is out of bounds ({value})")
+                        (operand.ctx_start, operand.ctx_end, f"...but this value is out of bounds ({describe_int(value)})")
                     )
                     return 0
             return value % (2 ** bitness)
